@@ -1,0 +1,37 @@
+//! Verification hooks (compiled only with `--cfg mimium_verif`): a thread-local recorder of state accesses.
+use std::cell::RefCell;
+
+#[derive(Clone, Debug, PartialEq, Eq)]
+pub struct StateAccess {
+    /// true: the global (dsp) storage; false: a closure's own storage
+    pub global: bool,
+    /// cursor position at the access
+    pub pos: usize,
+    /// number of words touched
+    pub size: usize,
+    /// b'G' GetState, b'S' SetState, b'M' Mem, b'D' Delay
+    pub kind: u8,
+    pub storage_len: usize,
+}
+
+thread_local! {
+    static TRACE: RefCell<Option<Vec<StateAccess>>> = const { RefCell::new(None) };
+}
+
+/// Start (or restart) recording on this thread.
+pub fn start() {
+    TRACE.with(|t| *t.borrow_mut() = Some(Vec::new()));
+}
+
+/// Stop recording and return what was recorded.
+pub fn take() -> Vec<StateAccess> {
+    TRACE.with(|t| t.borrow_mut().take().unwrap_or_default())
+}
+
+pub(super) fn record(a: StateAccess) {
+    TRACE.with(|t| {
+        if let Some(v) = t.borrow_mut().as_mut() {
+            v.push(a);
+        }
+    });
+}
